@@ -385,10 +385,15 @@ def add_wrapped(m, rng, force_ctx=None):
           Method("mut_group", "mut", [], ("groupptr", gname, "Mut")),
           Method("make_obj", "ref", [("uint8_t", "a0")], ("obj", tobj, "Box"))]
     rng.shuffle(ms)
-    m.traits["Factory"] = Trait("Factory", ms, rettmp_fields=[("mut_group", ("group", gname, "Mut"))])
-    m.roots.append(("obj", "Factory", "Box", ctx))
-    if rng.random() < 0.7:
-        m.groups["Outer"] = (["Factory"], ["Clone"] if rng.random() < 0.5 else [])
+    # now and then the name of the return-wrapping trait ends in the name of a plain trait of the same group (KeyStore / Store)
+    plain = [n for n in m.traits if n not in ("Clone",) and not m.traits[n].rettmp_fields]
+    sibling = rng.choice(plain) if plain and rng.random() < 0.5 else None
+    fname = ("Key" + sibling) if sibling else "Factory"
+    m.traits[fname] = Trait(fname, ms, rettmp_fields=[("mut_group", ("group", gname, "Mut"))])
+    m.roots.append(("obj", fname, "Box", ctx))
+    if rng.random() < 0.7 or sibling:
+        opt = (["Clone"] if rng.random() < 0.5 else []) + ([sibling] if sibling else [])
+        m.groups["Outer"] = ([fname], opt)
         m.roots.append(("group", "Outer", "Box", ctx))
 
 
@@ -444,7 +449,14 @@ def _random_model(seed, fnptr=False):
             if inst == "Ref" and any(m.recv == "mut" for m in t.methods):
                 continue
             if rng.random() < 0.6 or not roots:
-                roots.append(("obj", tn, inst, rng.choice(["Arc", ""])))
+                ctx = rng.choice(["Arc", ""])
+                roots.append(("obj", tn, inst, ctx))
+                if rng.random() < 0.3:
+                    # the same object type exported with and without a context
+                    roots.append(("obj", tn, inst, "" if ctx else "Arc"))
+    for (kind, gname, inst, ctx) in list(roots):
+        if kind == "group" and rng.random() < 0.4:
+            roots.append((kind, gname, inst, "" if ctx else "Arc"))
     if not roots:
         roots.append(("obj", names[0], "Box", "Arc"))
     user = [(0, PRELUDE_TYPES)]
